@@ -20,14 +20,14 @@ type c15Cfg struct {
 }
 
 type c15Tap struct {
-	mu       sync.Mutex
-	nodes    map[string]*SimNode // by address
-	label    string
-	canaries [][]byte
-	bad      []string
-	cells    map[string]int64
-	pkts     int64
-	frames   int64
+	mu        sync.Mutex
+	nodes     map[string]*SimNode // by address
+	label     string
+	canaries  [][]byte
+	bad       []string
+	cells     map[string]int64
+	pkts      int64
+	frames    int64
 	labelSeen map[int]bool // connID: dialer wrote its label header
 }
 
@@ -328,7 +328,7 @@ func TestC15(t *testing.T) {
 			continue
 		}
 		run.Journal(id, fmt.Sprintf("%+v", cfg))
-		reps := run.Pick(3, 60)
+		reps := run.Pick(4, 400)
 		for r := 0; r < reps; r++ {
 			var res []*c01Result
 			var cells map[string]int64
